@@ -67,6 +67,24 @@ func genDotted(t *rapid.T, varexp bool) *gen.Tree {
 		}
 		o.Put(k, v)
 	}
+	if rapid.IntRange(0, 3).Draw(t, "twice") == 0 {
+		// one object defined twice (nested below "a" and under the dotted name "a.b"), both definitions holding
+		// a sub-object of the same name next to other settings: three levels that are merged recursively
+		leaf := func() *gen.Tree { return gen.GenTree(t, &gen.TreeCfg{Depth: 1, Width: 2, Keys: []string{"p", "q"}, NoFloat: true}, 1) }
+		inner1, inner2 := gen.Obj().Put("p", leaf()), gen.Obj().Put("q", leaf())
+		def1 := gen.Obj().Put("s", inner1)
+		def2 := gen.Obj().Put("s", inner2)
+		for _, extra := range []string{"t", "u", "v"} {
+			if rapid.Bool().Draw(t, "extra1") {
+				def1.Put(extra+"1", leaf())
+			}
+			if rapid.Bool().Draw(t, "extra2") {
+				def2.Put(extra+"2", leaf())
+			}
+		}
+		o.Put("a", gen.Obj().Put("b", def1))
+		o.Put("a.b", def2)
+	}
 	return o
 }
 
